@@ -49,7 +49,7 @@ func c08Session(t *rapid.T) {
 		margs = append(margs, "--exact")
 	}
 	margs = append(margs, "--delimiter", ",")
-	startNth := rapid.SampledFrom([]string{"", "", "1", "2.."}).Draw(t, "startNth")
+	startNth := rapid.SampledFrom([]string{"", "1", "2.."}).Draw(t, "startNth")
 	sessDirFifo := ""
 	// the input arrives through a FIFO that the harness feeds in bursts
 	fifoDir, err := os.MkdirTemp(workDir, "fifo")
@@ -188,7 +188,7 @@ func c08Session(t *rapid.T) {
 	nsteps := rapid.IntRange(2, 14).Draw(t, "steps")
 	reloaded := false
 	for i := 0; i < nsteps; i++ {
-		op := rapid.SampledFrom([]string{"put", "put", "put", "backspace", "change-query", "clear", "toggle-sort", "exclude", "change-nth", "change-nth", "reload", "burst-of-edits", "settle"}).Draw(t, "op")
+		op := rapid.SampledFrom([]string{"put", "put", "put", "backspace", "change-query", "clear", "toggle-sort", "exclude", "change-nth", "change-nth", "nth-there-and-back", "reload", "burst-of-edits", "settle"}).Draw(t, "op")
 		delay := time.Duration(rapid.IntRange(0, 30).Draw(t, "delayMs")) * time.Millisecond
 		body := ""
 		switch op {
@@ -213,7 +213,28 @@ func c08Session(t *rapid.T) {
 			labels["sort_toggle"] = true
 		case "change-nth":
 			nth = rapid.SampledFrom([]string{"1", "2", "..", "2.."}).Draw(t, "nth")
+			if startNth != "" && rapid.IntRange(0, 2).Draw(t, "backToStart") == 0 {
+				nth = startNth // back to the value given on the command line
+			}
 			body = "change-nth(" + nth + ")"
+			labels["change_nth"] = true
+		case "nth-there-and-back":
+			// to another field expression and back to the one in force before (the initial one included)
+			prev := nth
+			if prev == "" {
+				prev = ".."
+			}
+			other := rapid.SampledFrom([]string{"1", "2", "2.."}).Draw(t, "otherNth")
+			if other == prev {
+				other = ".."
+			}
+			if code, err := s.Post("change-nth(" + other + ")"); err != nil || code != 200 {
+				t.Fatalf("POST change-nth answered %d (%v)\nhistory:\n  %s", code, err, strings.Join(history, "\n  "))
+			}
+			history = append(history, "POST change-nth("+other+")")
+			time.Sleep(time.Duration(rapid.IntRange(0, 40).Draw(t, "backDelayMs")) * time.Millisecond)
+			nth = prev
+			body = "change-nth(" + prev + ")"
 			labels["change_nth"] = true
 		case "burst-of-edits":
 			// several edits without waiting in between
